@@ -518,9 +518,9 @@ def u8 (v : Nat) : Bytes := [UInt8.ofNat v]
 
 def listArg (s : String) : List String := if s == "-" then [] else s.splitOn ","
 
-def addrListArg (s : String) : Out (List Bytes) := (listArg s).mapM (fun x => hexArgN x 16)
-def hexListArg (s : String) : Out (List Bytes) := (listArg s).mapM hexArg
-def natListArg (s : String) : Out (List Nat) := (listArg s).mapM natArg
+def addrListArg (s : String) : Out (List Bytes) := mapOut (fun x => hexArgN x 16) (listArg s)
+def hexListArg (s : String) : Out (List Bytes) := mapOut hexArg (listArg s)
+def natListArg (s : String) : Out (List Nat) := mapOut natArg (listArg s)
 
 /-- one record argument `type:addr:src+src|-:aux` -/
 def recordArg (s : String) : Out McastRec :=
@@ -528,7 +528,7 @@ def recordArg (s : String) : Out McastRec :=
   | [t, a, ss, aux] => do
     let t ← natArg t
     let a ← hexArgN a 16
-    let srcs ← (if ss == "-" then [] else ss.splitOn "+").mapM (fun x => hexArgN x 16)
+    let srcs ← mapOut (fun x => hexArgN x 16) (if ss == "-" then [] else ss.splitOn "+")
     let aux ← hexArg aux
     pure ⟨t % 256, a, srcs, aux⟩
   | _ => .throw .stdOther
@@ -546,100 +546,134 @@ def encLabels : Nat → Bytes → Bytes
 
 def encDomains (ds : List Bytes) : Bytes := (ds.map (fun d => encLabels (d.length + 1) d ++ [0])).flatten
 
-def apply (p : Icmp6) : List String → Out Icmp6
-  | ["type", v] => do let n ← natArg v; pure { p with type := n % 256 }
-  | ["code", v] => do let n ← natArg v; pure { p with code := n % 256 }
-  | ["identifier", v] => do let n ← natArg v; pure (p.setUn 0 (be16 n))
-  | ["sequence", v] => do let n ← natArg v; pure (p.setUn 2 (be16 n))
-  | ["maximum_response_code", v] => do let n ← natArg v; pure (p.setUn 0 (be16 n))
-  | ["override", v] => do let n ← natArg v; pure (p.setBits 0 5 1 n)
-  | ["solicited", v] => do let n ← natArg v; pure (p.setBits 0 6 1 n)
-  | ["router", v] => do let n ← natArg v; pure (p.setBits 0 7 1 n)
-  | ["hop_limit", v] => do let n ← natArg v; pure (p.setUn 0 (u8 n))
-  | ["router_pref", v] => do let n ← natArg v; pure (p.setBits 1 3 2 n)
-  | ["home_agent", v] => do let n ← natArg v; pure (p.setBits 1 5 1 n)
-  | ["other", v] => do let n ← natArg v; pure (p.setBits 1 6 1 n)
-  | ["managed", v] => do let n ← natArg v; pure (p.setBits 1 7 1 n)
-  | ["router_lifetime", v] => do let n ← natArg v; pure (p.setUn 2 (be16 n))
-  | ["reachable_time", v] => do let n ← natArg v; pure { p with reach := be32 n }
-  | ["retransmit_timer", v] => do let n ← natArg v; pure { p with retrans := be32 n }
-  | ["target_addr", v] => do let b ← hexArgN v 16; pure { p with target := b }
-  | ["dest_addr", v] => do let b ← hexArgN v 16; pure { p with dest := b }
-  | ["multicast_addr", v] => do let b ← hexArgN v 16; pure { p with mcast := b }
-  | ["multicast_address_records", v] => do let rs ← (listArg v).mapM recordArg; pure { p with records := rs }
-  | ["sources", v] => do let l ← addrListArg v; pure { p with sources := l }
-  | ["supress", v] => do let n ← natArg v; pure (p.setMlqmBits 4 1 n)
-  | ["qrv", v] => do let n ← natArg v; pure (p.setMlqmBits 5 3 n)
-  | ["qqic", v] => do let n ← natArg v; pure { p with mlqm := patch p.mlqm 1 (u8 n) }
-  | ["use_mldv2", v] => do let b ← Icmp4.boolArg v; pure { p with useMldv2 := b }
-  | ["use_length_field", v] => do let b ← Icmp4.boolArg v; pure (p.setUn 0 [if b then 1 else 0])
-  | ["add_extension", c, t, h] => do
+/-- API calls: header fields; `none` = not one of these -/
+def applyFields (p : Icmp6) : List String → Option (Out Icmp6)
+  | ["type", v] => some (do let n ← natArg v; pure { p with type := n % 256 })
+  | ["code", v] => some (do let n ← natArg v; pure { p with code := n % 256 })
+  | ["identifier", v] => some (do let n ← natArg v; pure (p.setUn 0 (be16 n)))
+  | ["sequence", v] => some (do let n ← natArg v; pure (p.setUn 2 (be16 n)))
+  | ["maximum_response_code", v] => some (do let n ← natArg v; pure (p.setUn 0 (be16 n)))
+  | ["override", v] => some (do let n ← natArg v; pure (p.setBits 0 5 1 n))
+  | ["solicited", v] => some (do let n ← natArg v; pure (p.setBits 0 6 1 n))
+  | ["router", v] => some (do let n ← natArg v; pure (p.setBits 0 7 1 n))
+  | ["hop_limit", v] => some (do let n ← natArg v; pure (p.setUn 0 (u8 n)))
+  | ["router_pref", v] => some (do let n ← natArg v; pure (p.setBits 1 3 2 n))
+  | ["home_agent", v] => some (do let n ← natArg v; pure (p.setBits 1 5 1 n))
+  | ["other", v] => some (do let n ← natArg v; pure (p.setBits 1 6 1 n))
+  | ["managed", v] => some (do let n ← natArg v; pure (p.setBits 1 7 1 n))
+  | ["router_lifetime", v] => some (do let n ← natArg v; pure (p.setUn 2 (be16 n)))
+  | _ => none
+
+/-- API calls: addresses, timers, MLD, extensions, raw options; `none` = not one of these -/
+def applyMld (p : Icmp6) : List String → Option (Out Icmp6)
+  | ["reachable_time", v] => some (do let n ← natArg v; pure { p with reach := be32 n })
+  | ["retransmit_timer", v] => some (do let n ← natArg v; pure { p with retrans := be32 n })
+  | ["target_addr", v] => some (do let b ← hexArgN v 16; pure { p with target := b })
+  | ["dest_addr", v] => some (do let b ← hexArgN v 16; pure { p with dest := b })
+  | ["multicast_addr", v] => some (do let b ← hexArgN v 16; pure { p with mcast := b })
+  | ["multicast_address_records", v] => some (do let rs ← mapOut recordArg (listArg v); pure { p with records := rs })
+  | ["sources", v] => some (do let l ← addrListArg v; pure { p with sources := l })
+  | ["supress", v] => some (do let n ← natArg v; pure (p.setMlqmBits 4 1 n))
+  | ["qrv", v] => some (do let n ← natArg v; pure (p.setMlqmBits 5 3 n))
+  | _ => none
+
+/-- API calls: MLD fields, extensions, raw options; `none` = not one of these -/
+def applyMld2 (p : Icmp6) : List String → Option (Out Icmp6)
+  | ["qqic", v] => some (do let n ← natArg v; pure { p with mlqm := patch p.mlqm 1 (u8 n) })
+  | ["use_mldv2", v] => some (do let b ← Icmp4.boolArg v; pure { p with useMldv2 := b })
+  | ["use_length_field", v] => some (do let b ← Icmp4.boolArg v; pure (p.setUn 0 [if b then 1 else 0]))
+  | ["add_extension", c, t, h] => some (do
     let e ← Icmp4.extArg c t h
-    pure { p with ext := { p.ext with exts := p.ext.exts ++ [e] } }
-  | ["ext_version", v] => do let n ← natArg v; pure { p with ext := { p.ext with vr := p.ext.vr % 4096 + (n % 16) * 4096 } }
-  | ["ext_reserved", v] => do let n ← natArg v; pure { p with ext := { p.ext with vr := p.ext.vr / 4096 % 16 * 4096 + n % 4096 } }
-  | ["add_option", c, v] => do let c ← natArg c; let b ← hexArg v; p.addTyped c b
-  | ["remove_option", c] => do let c ← natArg c; pure (p.removeOption (c % 256))
-  | ["source_link_layer_addr", v] => do let b ← hexArgN v 6; p.addTyped 1 b
-  | ["target_link_layer_addr", v] => do let b ← hexArgN v 6; p.addTyped 2 b
-  | ["prefix_info", pl, a, l, valid, pref, pfx] => do
+    pure { p with ext := { p.ext with exts := p.ext.exts ++ [e] } })
+  | ["ext_version", v] => some (do let n ← natArg v; pure { p with ext := { p.ext with vr := p.ext.vr % 4096 + (n % 16) * 4096 } })
+  | ["ext_reserved", v] => some (do let n ← natArg v; pure { p with ext := { p.ext with vr := p.ext.vr / 4096 % 16 * 4096 + n % 4096 } })
+  | ["add_option", c, v] => some (do let c ← natArg c; let b ← hexArg v; p.addTyped c b)
+  | ["remove_option", c] => some (do let c ← natArg c; pure (p.removeOption (c % 256)))
+  | ["source_link_layer_addr", v] => some (do let b ← hexArgN v 6; p.addTyped 1 b)
+  | _ => none
+
+/-- API calls: typed option setters (1); `none` = not one of these -/
+def applyOpts1 (p : Icmp6) : List String → Option (Out Icmp6)
+  | ["target_link_layer_addr", v] => some (do let b ← hexArgN v 6; p.addTyped 2 b)
+  | ["prefix_info", pl, a, l, valid, pref, pfx] => some (do
     let pl ← natArg pl; let a ← natArg a; let l ← natArg l; let valid ← natArg valid; let pref ← natArg pref
     let pfx ← hexArgN pfx 16
-    p.addTyped 3 (u8 pl ++ u8 ((l % 2) * 128 + (a % 2) * 64) ++ be32 valid ++ be32 pref ++ zeros 4 ++ pfx)
-  | ["redirect_header", v] => do let b ← hexArg v; p.addTyped 4 b
-  | ["mtu", a, b] => do let a ← natArg a; let b ← natArg b; p.addTyped 5 (be16 a ++ be32 b)
-  | ["shortcut_limit", l, r1, r2] => do
+    p.addTyped 3 (u8 pl ++ u8 ((l % 2) * 128 + (a % 2) * 64) ++ be32 valid ++ be32 pref ++ zeros 4 ++ pfx))
+  | ["redirect_header", v] => some (do let b ← hexArg v; p.addTyped 4 b)
+  | ["mtu", a, b] => some (do let a ← natArg a; let b ← natArg b; p.addTyped 5 (be16 a ++ be32 b))
+  | ["shortcut_limit", l, r1, r2] => some (do
     let l ← natArg l; let r1 ← natArg r1; let r2 ← natArg r2
-    p.addTyped 6 (u8 l ++ u8 r1 ++ be32 r2)
-  | ["new_advert_interval", r, i] => do let r ← natArg r; let i ← natArg i; p.addTyped 7 (be16 r ++ be32 i)
-  | ["new_home_agent_info", l] => do
+    p.addTyped 6 (u8 l ++ u8 r1 ++ be32 r2))
+  | ["new_advert_interval", r, i] => some (do let r ← natArg r; let i ← natArg i; p.addTyped 7 (be16 r ++ be32 i))
+  | ["new_home_agent_info", l] => some (do
     let l ← natListArg l
     match l with
     | [a, b, c] => p.addTyped 8 (be16 a ++ be16 b ++ be16 c)
-    | _ => .throw .malformedOption
-  | ["source_addr_list", r, l] => do let r ← hexArgN r 6; let l ← addrListArg l; p.addTyped 9 (r ++ l.flatten)
-  | ["target_addr_list", r, l] => do let r ← hexArgN r 6; let l ← addrListArg l; p.addTyped 10 (r ++ l.flatten)
-  | ["rsa_signature", h, s] => do
+    | _ => .throw .malformedOption)
+  | ["source_addr_list", r, l] => some (do let r ← hexArgN r 6; let l ← addrListArg l; p.addTyped 9 (r ++ l.flatten))
+  | ["target_addr_list", r, l] => some (do let r ← hexArgN r 6; let l ← addrListArg l; p.addTyped 10 (r ++ l.flatten))
+  | ["rsa_signature", h, s] => some (do
     let h ← hexArgN h 16; let s ← hexArg s
     -- the padding completes the whole option (type and length octets included) to a multiple of 8
-    p.addTyped 12 (zeros 2 ++ h ++ s ++ zeros (optPadding (2 + 2 + 16 + s.length)))
-  | ["timestamp", r, t] => do let r ← hexArgN r 6; let t ← natArg t; p.addTyped 13 (r ++ OutCursor.beBytes 8 t)
-  | ["nonce", v] => do let b ← hexArg v; p.addTyped 14 b
-  | ["ip_prefix", c, l, a] => do
+    p.addTyped 12 (zeros 2 ++ h ++ s ++ zeros (optPadding (2 + 2 + 16 + s.length))))
+  | ["timestamp", r, t] => some (do let r ← hexArgN r 6; let t ← natArg t; p.addTyped 13 (r ++ OutCursor.beBytes 8 t))
+  | ["nonce", v] => some (do let b ← hexArg v; p.addTyped 14 b)
+  | ["ip_prefix", c, l, a] => some (do
     let c ← natArg c; let l ← natArg l; let a ← hexArgN a 16
-    p.addTyped 17 (u8 c ++ u8 l ++ zeros 4 ++ a)
-  | ["link_layer_addr", c, a] => do
+    p.addTyped 17 (u8 c ++ u8 l ++ zeros 4 ++ a))
+  | _ => none
+
+/-- API calls: typed option setters (2); `none` = not one of these -/
+def applyOpts2 (p : Icmp6) : List String → Option (Out Icmp6)
+  | ["link_layer_addr", c, a] => some (do
     let c ← natArg c; let a ← hexArg a
-    p.addTyped 19 (u8 c ++ a ++ zeros (optPadding (2 + (1 + a.length))))
-  | ["naack", c, s] => do let c ← natArg c; let s ← natArg s; p.addTyped 20 (u8 c ++ u8 s ++ zeros 4)
-  | ["map", d, pr, r, valid, a] => do
+    p.addTyped 19 (u8 c ++ a ++ zeros (optPadding (2 + (1 + a.length)))))
+  | ["naack", c, s] => some (do let c ← natArg c; let s ← natArg s; p.addTyped 20 (u8 c ++ u8 s ++ zeros 4))
+  | ["map", d, pr, r, valid, a] => some (do
     let d ← natArg d; let pr ← natArg pr; let r ← natArg r; let valid ← natArg valid; let a ← hexArgN a 16
-    p.addTyped 23 (u8 ((d % 16) * 16 + pr % 16) ++ u8 ((r % 2) * 128) ++ be32 valid ++ a)
-  | ["route_info", pl, pr, lt, pfx] => do
+    p.addTyped 23 (u8 ((d % 16) * 16 + pr % 16) ++ u8 ((r % 2) * 128) ++ be32 valid ++ a))
+  | ["route_info", pl, pr, lt, pfx] => some (do
     let pl ← natArg pl; let pr ← natArg pr; let lt ← natArg lt; let pfx ← hexArg pfx
-    p.addTyped 24 (u8 pl ++ u8 ((pr % 4) * 8) ++ be32 lt ++ pfx ++ zeros (optPadding pfx.length))
-  | ["recursive_dns_servers", lt, l] => do
+    p.addTyped 24 (u8 pl ++ u8 ((pr % 4) * 8) ++ be32 lt ++ pfx ++ zeros (optPadding pfx.length)))
+  | ["recursive_dns_servers", lt, l] => some (do
     let lt ← natArg lt; let l ← addrListArg l
-    p.addTyped 25 (zeros 2 ++ be32 lt ++ l.flatten)
-  | ["handover_key_request", atv, k] => do
+    p.addTyped 25 (zeros 2 ++ be32 lt ++ l.flatten))
+  | ["handover_key_request", atv, k] => some (do
     let atv ← natArg atv; let k ← hexArg k
     let pad := optPadding (k.length + 4)
-    p.addTyped 27 (u8 pad ++ u8 ((atv % 16) * 16) ++ k ++ zeros pad)
-  | ["handover_key_reply", lt, atv, k] => do
+    p.addTyped 27 (u8 pad ++ u8 ((atv % 16) * 16) ++ k ++ zeros pad))
+  | ["handover_key_reply", lt, atv, k] => some (do
     let lt ← natArg lt; let atv ← natArg atv; let k ← hexArg k
     let pad := optPadding (k.length + 4 + 2)
-    p.addTyped 28 (u8 pad ++ u8 ((atv % 16) * 16) ++ be16 lt ++ k ++ zeros pad)
-  | ["handover_assist_info", c, h] => do
+    p.addTyped 28 (u8 pad ++ u8 ((atv % 16) * 16) ++ be16 lt ++ k ++ zeros pad))
+  | ["handover_assist_info", c, h] => some (do
     let c ← natArg c; let h ← hexArg h
-    p.addTyped 29 (u8 c ++ u8 h.length ++ h ++ zeros (optPadding (h.length + 2 + 2)))
-  | ["mobile_node_identifier", c, h] => do
+    p.addTyped 29 (u8 c ++ u8 h.length ++ h ++ zeros (optPadding (h.length + 2 + 2))))
+  | ["mobile_node_identifier", c, h] => some (do
     let c ← natArg c; let h ← hexArg h
-    p.addTyped 30 (u8 c ++ u8 h.length ++ h ++ zeros (optPadding (h.length + 2 + 2)))
-  | ["dns_search_list", lt, ds] => do
+    p.addTyped 30 (u8 c ++ u8 h.length ++ h ++ zeros (optPadding (h.length + 2 + 2))))
+  | ["dns_search_list", lt, ds] => some (do
     let lt ← natArg lt; let ds ← hexListArg ds
     let body := zeros 2 ++ be32 lt ++ encDomains ds
-    p.addTyped 31 (body ++ zeros (optPadding (body.length + 2)))
-  | _ => .throw .stdOther
+    p.addTyped 31 (body ++ zeros (optPadding (body.length + 2))))
+  | _ => none
+
+def apply (p : Icmp6) (op : List String) : Out Icmp6 :=
+  match p.applyFields op with
+  | some r => r
+  | none =>
+  match p.applyMld op with
+  | some r => r
+  | none =>
+  match p.applyMld2 op with
+  | some r => r
+  | none =>
+  match p.applyOpts1 op with
+  | some r => r
+  | none =>
+  match p.applyOpts2 op with
+  | some r => r
+  | none => .throw .stdOther
 
 def make : List String → Out Icmp6
   | [] => .ok (create 128)
